@@ -96,6 +96,10 @@ class Ctx:
         self.ghosts = {}
         self._obl_names = {}
         self.deadline = None
+        # evaluation of an element expression for a symbolic index (lazy lists): obligations are
+        # recorded under the guard "index in range" for one generic index and suppressed afterwards
+        self.guards = []
+        self.suppress = False
 
     # ------------------------------------------------------------ assumptions
     def assume(self, t, trusted: Optional[str] = None):
@@ -121,10 +125,12 @@ class Ctx:
     def oblige(self, goal, label, kind="ensures", note="", assume_after=True):
         """Record the obligation ``assumptions => goal``; then (by default) assume it,
         as the rest of the path is only meaningful if it holds."""
-        if goal is True:
+        if goal is True or self.suppress:
             return
         if goal is False:
             goal = z3.BoolVal(False)
+        if self.guards:
+            goal = z3.Implies(z3.And(*self.guards), goal)
         if z3.is_and(goal) and goal.num_args() > 1:
             # one obligation per conjunct: smaller queries, more stable verdicts
             for i, c in enumerate(goal.children()):
@@ -179,6 +185,12 @@ class Ctx:
         if not isinstance(cond, z3.BoolRef):
             raise PathAbort(f"branch on non-boolean {type(cond).__name__}", self.cur_line)
         cond = z3.simplify(cond)
+        if (self.guards or self.suppress) and not (z3.is_true(cond) or z3.is_false(cond)):
+            if self.implied(cond):
+                return True
+            if self.implied(z3.Not(cond)):
+                return False
+            raise PathAbort("data-dependent branch inside the element of a symbolic-length list", self.cur_line)
         if z3.is_true(cond):
             return True
         if z3.is_false(cond):
